@@ -77,6 +77,12 @@ type fn struct {
 	partial bool
 	retType string
 
+	// element links: a local pointer appended to a list field of an owned object and written through later
+	linkAt     map[*ast.AssignStmt]*elemLink
+	linkOf     map[types.Object]*elemLink
+	activeLink map[types.Object]string // while generating what follows the append: the Coq variable holding the index
+	linkBusy   map[*ast.AssignStmt]bool
+
 	// InstantiateAny: parameters replaced by a variable of the instance type
 	anyArgs []types.Type
 	repl    map[types.Object]*types.Var
@@ -794,6 +800,8 @@ func (c *fn) analyse() {
 			for i, nm := range x.Names {
 				if i < len(x.Values) && len(x.Values) == len(x.Names) {
 					record(nm, x.Values[i])
+				} else if len(x.Values) == 0 {
+					record(nm, zeroDecl) // `var p *T`: nil, which aliases nothing
 				} else {
 					record(nm, nil)
 				}
@@ -854,10 +862,18 @@ func (c *fn) analyse() {
 			continue
 		}
 		all := len(rhss) > 0
+		onlyZero := true
 		for _, r := range rhss {
+			if r == ast.Expr(zeroDecl) {
+				continue
+			}
+			onlyZero = false
 			if r == nil || !c.isCreation(r) {
 				all = false
 			}
+		}
+		if onlyZero {
+			all = false
 		}
 		if !all {
 			continue
@@ -871,6 +887,10 @@ func (c *fn) analyse() {
 			// held by value only when it cannot be nil (a fresh result of an oracle may be nil)
 			nonNil := true
 			for _, r := range rhss {
+				if r == ast.Expr(zeroDecl) {
+					nonNil = false
+					continue
+				}
 				if call, ok := unparen(r).(*ast.CallExpr); ok {
 					if fi, _, _ := c.calleeInfoSafe(call); fi != nil && fi.freshRes {
 						nonNil = false
@@ -989,6 +1009,7 @@ func (c *fn) analyse() {
 		}
 		c.fi.params = append(c.fi.params, pi)
 	}
+	c.findLinks()
 	c.checkAliases()
 	// results
 	res := c.sig.Results()
@@ -1066,6 +1087,7 @@ func (c *fn) translate(it *item) {
 		}()
 		c.partial = partial
 		c.worldObj, c.synthIdent, c.noEffect, c.deferred, c.deferRet = nil, map[*ast.Ident]string{}, 0, nil, nil
+		c.activeLink, c.linkBusy = map[types.Object]string{}, map[*ast.AssignStmt]bool{}
 		c.names = map[types.Object]string{}
 		c.used = map[string]bool{}
 		c.nfresh = 0
@@ -1289,6 +1311,11 @@ func (c *fn) assignedIn(n ast.Node) []types.Object {
 		}
 		return true
 	})
+	for o := range set {
+		if l := c.linkOf[o]; l != nil && c.isLocal(l.owner) && !(l.owner.Pos() >= n.Pos() && l.owner.Pos() < n.End()) {
+			set[l.owner] = true // a write through the element also replaces it in the list of its owner
+		}
+	}
 	var out []types.Object
 	for o := range set {
 		out = append(out, o)
@@ -1322,12 +1349,49 @@ func (c *fn) varType(o types.Object) string {
 // a literal, handed to a function that could return it): such a variable is a
 // value in the translation, and the alias would not see the mutation.
 func (c *fn) checkAliases() {
+	var stack []ast.Node
 	type occ struct {
 		pos   token.Pos
 		loops []ast.Node
+		res   types.Type // alias through the results of a call that received the object: their type
+		final bool       // mutation by the call of `return f(.., o, ..)`: nothing of this function runs afterwards
+	}
+	// finalCall: call is the whole of a return statement, o the only object this function returns to its
+	// caller besides results that cannot carry a reference: what the locals alias no longer matters
+	finalCall := func(call *ast.CallExpr, parent ast.Node, o types.Object) bool {
+		rs, ok := parent.(*ast.ReturnStmt)
+		if !ok || len(rs.Results) != 1 || unparen(rs.Results[0]) != ast.Expr(call) {
+			return false
+		}
+		for _, p := range c.inout {
+			if types.Object(p) != o && p != c.worldObj {
+				return false
+			}
+		}
+		res := c.sig.Results()
+		for i := 0; i < res.Len(); i++ {
+			switch c.g.kind(res.At(i).Type(), c.sub) {
+			case kString, kInt, kBool, kError, kUnit, kTime, kDropped:
+			default:
+				return false
+			}
+		}
+		for _, n := range stack {
+			if _, isLit := n.(*ast.FuncLit); isLit {
+				return false
+			}
+		}
+		return len(c.deferredLits()) == 0
 	}
 	aliases := map[types.Object][]occ{}
 	muts := map[types.Object][]occ{}
+	profiles := map[types.Object]*mutProfile{}
+	prof := func(o types.Object) *mutProfile {
+		if profiles[o] == nil {
+			profiles[o] = &mutProfile{}
+		}
+		return profiles[o]
+	}
 	appended := map[types.Object]bool{}
 	for _, o := range c.okAppend() {
 		appended[o] = true
@@ -1369,7 +1433,6 @@ func (c *fn) checkAliases() {
 		}
 		return t != nil && carry(t)
 	}
-	var stack []ast.Node
 	loopsOf := func() []ast.Node {
 		var out []ast.Node
 		for _, n := range stack {
@@ -1387,7 +1450,21 @@ func (c *fn) checkAliases() {
 		}
 		if id := c.rootIdent(e); id != nil {
 			if o := c.objOf(id); tracked(o) {
-				muts[o] = append(muts[o], occ{e.Pos(), loopsOf()})
+				muts[o] = append(muts[o], occ{pos: e.Pos(), loops: loopsOf()})
+				pr := prof(o)
+				if ix, ok := unparen(e).(*ast.IndexExpr); ok {
+					if t := c.tyOf(ix.X); t != nil {
+						switch resolve(t, c.sub).Underlying().(type) {
+						case *types.Map:
+							pr.maps = append(pr.maps, resolve(t, c.sub))
+							return
+						case *types.Slice:
+							pr.slices = append(pr.slices, resolve(t, c.sub))
+							return
+						}
+					}
+				}
+				pr.field = true
 			}
 		}
 	}
@@ -1405,7 +1482,10 @@ func (c *fn) checkAliases() {
 			for _, r := range x.Rhs {
 				if call, ok := unparen(r).(*ast.CallExpr); ok {
 					if o := c.okAppend()[call]; o != nil && tracked(o) {
-						muts[o] = append(muts[o], occ{call.Pos(), loopsOf()})
+						muts[o] = append(muts[o], occ{pos: call.Pos(), loops: loopsOf()})
+						if t := c.tyOf(call); t != nil {
+							prof(o).slices = append(prof(o).slices, resolve(t, c.sub))
+						}
 					}
 				}
 			}
@@ -1439,9 +1519,10 @@ func (c *fn) checkAliases() {
 							if call, ok := stack[pi-1].(*ast.CallExpr); ok && call.Fun == ast.Expr(p) {
 								fi, _, _ := c.calleeInfoSafe(call)
 								if fi != nil && len(fi.params) > 0 && fi.params[0].inout {
-									muts[o] = append(muts[o], occ{x.Pos(), loopsOf()})
+									muts[o] = append(muts[o], occ{pos: x.Pos(), loops: loopsOf()})
+									prof(o).any = true
 								} else if mayCarry(c.tyOf(call)) {
-									alias = true
+									aliases[o] = append(aliases[o], occ{pos: x.Pos(), loops: loopsOf(), res: c.tyOf(call)})
 								}
 							}
 						}
@@ -1467,12 +1548,26 @@ func (c *fn) checkAliases() {
 				if id, ok := unparen(p.Fun).(*ast.Ident); ok {
 					if b, ok := c.info.Uses[id].(*types.Builtin); ok {
 						switch b.Name() {
-						case "len", "append", "cap", "copy":
+						case "append":
+							// the slice itself is no alias; an appended element is one (the list refers to it),
+							// except for the element link the translation keeps in step (findLinks)
+							alias = len(p.Args) > 0 && p.Args[0] != child
+							if alias && pi > 0 {
+								if as, ok := stack[pi-1].(*ast.AssignStmt); ok {
+									if l := c.linkAt[as]; l != nil && l.elem == o {
+										alias = false
+									}
+								}
+							}
+						case "len", "cap", "copy":
 							alias = false
 						case "delete":
 							alias = false
 							if len(p.Args) > 0 && p.Args[0] == child {
-								muts[o] = append(muts[o], occ{x.Pos(), loopsOf()})
+								muts[o] = append(muts[o], occ{pos: x.Pos(), loops: loopsOf()})
+								if t := c.tyOf(p.Args[0]); t != nil {
+									prof(o).maps = append(prof(o).maps, resolve(t, c.sub))
+								}
 							}
 						}
 						break
@@ -1488,23 +1583,49 @@ func (c *fn) checkAliases() {
 						if a == child && i < len(fi.params) {
 							if fi.params[i].inout {
 								alias = false
-								muts[o] = append(muts[o], occ{x.Pos(), loopsOf()})
+								if pi > 0 && finalCall(p, stack[pi-1], o) {
+									muts[o] = append(muts[o], occ{pos: x.Pos(), loops: loopsOf(), final: true})
+								} else {
+									muts[o] = append(muts[o], occ{pos: x.Pos(), loops: loopsOf()})
+									prof(o).any = true
+								}
 							} else if !mayCarry(c.tyOf(p)) {
 								alias = false
+							} else {
+								// only the results of the call could refer to the object: decided by their type
+								alias = false
+								aliases[o] = append(aliases[o], occ{pos: x.Pos(), loops: loopsOf(), res: c.tyOf(p)})
 							}
 						}
 					}
 				}
 			}
 			if alias {
-				aliases[o] = append(aliases[o], occ{x.Pos(), loopsOf()})
+				aliases[o] = append(aliases[o], occ{pos: x.Pos(), loops: loopsOf()})
 			}
 		}
 		return true
 	})
-	for o, as := range aliases {
+	var aliased []types.Object
+	for o := range aliases {
+		aliased = append(aliased, o)
+	}
+	sort.Slice(aliased, func(i, j int) bool {
+		if aliased[i].Pos() != aliased[j].Pos() {
+			return aliased[i].Pos() < aliased[j].Pos()
+		}
+		return aliased[i].Name() < aliased[j].Name()
+	})
+	for _, o := range aliased {
+		as := aliases[o]
 		for _, a := range as {
+			if a.res != nil && profiles[o] != nil && !c.mayShare(a.res, o, profiles[o]) {
+				continue // by their types the results of that call cannot refer to what this function mutates
+			}
 			for _, m := range muts[o] {
+				if m.final && a.res != nil {
+					continue
+				}
 				bad := m.pos > a.pos
 				for _, la := range a.loops {
 					for _, lm := range m.loops {
@@ -1521,6 +1642,387 @@ func (c *fn) checkAliases() {
 			}
 		}
 	}
+}
+
+// deferredLits: the function literals deferred in the body.
+func (c *fn) deferredLits() []*ast.FuncLit {
+	var out []*ast.FuncLit
+	if c.decl == nil {
+		return out
+	}
+	ast.Inspect(c.decl.Body, func(n ast.Node) bool {
+		if d, ok := n.(*ast.DeferStmt); ok {
+			if lit, ok := unparen(d.Call.Fun).(*ast.FuncLit); ok {
+				out = append(out, lit)
+			}
+		}
+		return true
+	})
+	return out
+}
+
+// elemLink: the statement `X.F = append(X.F, p)` after which the translation keeps element
+// len-before of X.F equal to p: every later write through p also replaces that element.
+type elemLink struct {
+	stmt  *ast.AssignStmt
+	owner types.Object // X
+	lhs   ast.Expr     // X.F
+	elem  types.Object // p
+}
+
+// findLinks recognises element links. Conditions (else the append is an ordinary second reference
+// to p and a later write through p is refused by checkAliases):
+//   - S is `X.F = append(X.F, p)`, X a variable this function owns (in/out parameter, local struct or
+//     owned pointer), p a local pointer variable it owns (all its values are created here);
+//   - S is a statement of a block B; every write through p after S is in a later statement of B;
+//   - from S to the last statement of B that mentions p: p is not assigned, X is not assigned, X.F is
+//     only assigned by `X.F = append(X.F, ..)`, X is not handed to a callee that writes through it,
+//     no function literal mentions p or X;
+//   - a loop around S also contains the declaration of p.
+func (c *fn) findLinks() {
+	c.linkAt, c.linkOf = map[*ast.AssignStmt]*elemLink{}, map[types.Object]*elemLink{}
+	if c.decl == nil {
+		return
+	}
+	mentions := func(n ast.Node, o types.Object) bool {
+		found := false
+		ast.Inspect(n, func(x ast.Node) bool {
+			if id, ok := x.(*ast.Ident); ok && c.objOf(id) == o {
+				found = true
+			}
+			return !found
+		})
+		return found
+	}
+	// writes through o (o.f = v, *o = v, o handed to a callee that writes through it) inside n
+	writesThrough := func(n ast.Node, o types.Object) []token.Pos {
+		var out []token.Pos
+		ast.Inspect(n, func(x ast.Node) bool {
+			switch s := x.(type) {
+			case *ast.AssignStmt:
+				for _, l := range s.Lhs {
+					if _, plain := unparen(l).(*ast.Ident); plain {
+						continue
+					}
+					if id := c.rootIdent(l); id != nil && c.objOf(id) == o {
+						out = append(out, l.Pos())
+					}
+				}
+			case *ast.IncDecStmt:
+				if _, plain := unparen(s.X).(*ast.Ident); !plain {
+					if id := c.rootIdent(s.X); id != nil && c.objOf(id) == o {
+						out = append(out, s.X.Pos())
+					}
+				}
+			case *ast.CallExpr:
+				if tv, isT := c.info.Types[s.Fun]; isT && tv.IsType() {
+					return true
+				}
+				fi, _, recv := c.calleeInfoSafe(s)
+				if fi == nil {
+					return true
+				}
+				args := s.Args
+				if recv != nil {
+					args = append([]ast.Expr{recv}, args...)
+				}
+				for i, a := range args {
+					if i < len(fi.params) && fi.params[i].inout {
+						if id := c.rootIdent(a); id != nil && c.objOf(id) == o {
+							out = append(out, a.Pos())
+						}
+					}
+				}
+			}
+			return true
+		})
+		return out
+	}
+	var stack []ast.Node
+	ast.Inspect(c.decl.Body, func(n ast.Node) bool {
+		if n == nil {
+			stack = stack[:len(stack)-1]
+			return true
+		}
+		stack = append(stack, n)
+		s, ok := n.(*ast.AssignStmt)
+		if !ok || len(s.Lhs) != 1 || len(s.Rhs) != 1 || s.Tok != token.ASSIGN {
+			return true
+		}
+		call, ok := unparen(s.Rhs[0]).(*ast.CallExpr)
+		if !ok || len(call.Args) != 2 || call.Ellipsis.IsValid() {
+			return true
+		}
+		xo := c.okAppend()[call]
+		sel, isSel := unparen(s.Lhs[0]).(*ast.SelectorExpr)
+		if xo == nil || !isSel {
+			return true
+		}
+		xid, ok := unparen(sel.X).(*ast.Ident)
+		if !ok || c.objOf(xid) != xo || !c.mutable[xo] {
+			return true
+		}
+		pid, ok := unparen(call.Args[1]).(*ast.Ident)
+		if !ok {
+			return true
+		}
+		po := c.objOf(pid)
+		if po == nil || !c.isLocal(po) || !c.mutable[po] || c.g.kind(po.Type(), c.sub) != kPtr || c.linkOf[po] != nil {
+			return true
+		}
+		if len(stack) < 2 {
+			return true
+		}
+		blk, ok := stack[len(stack)-2].(*ast.BlockStmt)
+		if !ok {
+			return true
+		}
+		idx := -1
+		for i, st := range blk.List {
+			if st == ast.Stmt(s) {
+				idx = i
+			}
+		}
+		if idx < 0 {
+			return true
+		}
+		// a loop around S must contain the declaration of p
+		for _, a := range stack {
+			switch a.(type) {
+			case *ast.ForStmt, *ast.RangeStmt:
+				if !(po.Pos() >= a.Pos() && po.Pos() < a.End()) {
+					return true
+				}
+			case *ast.FuncLit:
+				return true
+			}
+		}
+		rest := blk.List[idx+1:]
+		last := -1
+		for j, st := range rest {
+			if mentions(st, po) {
+				last = j
+			}
+		}
+		// every write through p after S lies in rest
+		for _, w := range writesThrough(c.decl.Body, po) {
+			if w > s.End() && !(len(rest) > 0 && w >= rest[0].Pos() && w < blk.End()) {
+				return true
+			}
+		}
+		okLink := true
+		for j := 0; j <= last && okLink; j++ {
+			ast.Inspect(rest[j], func(x ast.Node) bool {
+				switch y := x.(type) {
+				case *ast.FuncLit:
+					if mentions(y, po) || mentions(y, xo) {
+						okLink = false
+					}
+				case *ast.AssignStmt:
+					for li, l := range y.Lhs {
+						if id, plain := unparen(l).(*ast.Ident); plain {
+							if o := c.objOf(id); o == po || o == xo {
+								okLink = false
+							}
+							continue
+						}
+						if c.pathString(l) == c.pathString(s.Lhs[0]) {
+							// X.F = append(X.F, ..) keeps the positions
+							good := false
+							if len(y.Lhs) == len(y.Rhs) {
+								if ac, isCall := unparen(y.Rhs[li]).(*ast.CallExpr); isCall && c.okAppend()[ac] == xo {
+									good = true
+								}
+							}
+							if !good {
+								okLink = false
+							}
+						} else if ix, isIx := unparen(l).(*ast.IndexExpr); isIx && c.pathString(ix.X) == c.pathString(s.Lhs[0]) {
+							okLink = false
+						}
+					}
+				case *ast.RangeStmt:
+					if y.Tok == token.ASSIGN {
+						for _, e := range []ast.Expr{y.Key, y.Value} {
+							if e != nil {
+								if id, plain := unparen(e).(*ast.Ident); plain {
+									if o := c.objOf(id); o == po || o == xo {
+										okLink = false
+									}
+								}
+							}
+						}
+					}
+				}
+				return okLink
+			})
+			if len(writesThrough(rest[j], xo)) > 0 {
+				// a write through X by a callee could move the elements; plain field stores are in AssignStmt above
+				for _, w := range writesThrough(rest[j], xo) {
+					_ = w
+				}
+			}
+			// X handed to a callee that writes through it
+			ast.Inspect(rest[j], func(x ast.Node) bool {
+				cl, isCall := x.(*ast.CallExpr)
+				if !isCall {
+					return okLink
+				}
+				if tv, isT := c.info.Types[cl.Fun]; isT && tv.IsType() {
+					return okLink
+				}
+				fi, _, recv := c.calleeInfoSafe(cl)
+				if fi == nil {
+					return okLink
+				}
+				args := cl.Args
+				if recv != nil {
+					args = append([]ast.Expr{recv}, args...)
+				}
+				for i, a := range args {
+					if i < len(fi.params) && fi.params[i].inout {
+						if id := c.rootIdent(a); id != nil && c.objOf(id) == xo {
+							okLink = false
+						}
+					}
+				}
+				return okLink
+			})
+		}
+		if !okLink {
+			return true
+		}
+		l := &elemLink{stmt: s, owner: xo, lhs: s.Lhs[0], elem: po}
+		c.linkAt[s] = l
+		c.linkOf[po] = l
+		c.g.note(fmt.Sprintf("%s: %s is appended to %s.%s and written through afterwards: the translation replaces that element of the list at every such write (the list is only appended to in between)", c.fi.label, po.Name(), xo.Name(), sel.Sel.Name))
+		return true
+	})
+}
+
+// zeroDecl stands for the value of a declaration without initialiser (`var p *T`).
+var zeroDecl = &ast.Ident{Name: "nil"}
+
+// mutProfile: how a function mutates an object it owns.
+type mutProfile struct {
+	field  bool         // assignments to its own memory (o.f = v, *o = v)
+	slices []types.Type // slice types appended to / written (o.f = append(o.f, ..))
+	maps   []types.Type // map types written (o.f[k] = v, delete)
+	any    bool         // handed to a callee that writes through it
+}
+
+// mayShare: could a value of type res (the results of a call that received o)
+// refer to memory this function mutates through o? Decided by types: a pointer
+// to the pointee of o or to a part of it that is held by value, a slice / map
+// of a type that is appended to / written. Interface values (except error),
+// function values and channels could hold anything.
+func (c *fn) mayShare(res types.Type, o types.Object, pr *mutProfile) bool {
+	if pr.any {
+		return true
+	}
+	var parts []types.Type
+	if pr.field {
+		root := resolve(o.Type(), c.sub)
+		if p, ok := root.Underlying().(*types.Pointer); ok {
+			root = resolve(p.Elem(), c.sub)
+		}
+		seenP := map[string]bool{}
+		var byValue func(t types.Type)
+		byValue = func(t types.Type) {
+			key := types.TypeString(t, nil)
+			if seenP[key] {
+				return
+			}
+			seenP[key] = true
+			parts = append(parts, t)
+			switch u := t.Underlying().(type) {
+			case *types.Struct:
+				for i := 0; i < u.NumFields(); i++ {
+					byValue(resolve(u.Field(i).Type(), c.sub))
+				}
+			case *types.Array:
+				byValue(resolve(u.Elem(), c.sub))
+			}
+		}
+		byValue(root)
+	}
+	in := func(t types.Type, set []types.Type) bool {
+		for _, x := range set {
+			if types.Identical(t, x) {
+				return true
+			}
+		}
+		return false
+	}
+	seen := map[string]bool{}
+	depth := 0
+	assumed := false
+	var walk func(t types.Type) bool
+	walk = func(t types.Type) bool {
+		if t == nil {
+			return false
+		}
+		t = resolve(t, c.sub)
+		key := types.TypeString(t, nil)
+		if seen[key] {
+			return false
+		}
+		seen[key] = true
+		if tu, ok := t.(*types.Tuple); ok {
+			for i := 0; i < tu.Len(); i++ {
+				if walk(tu.At(i).Type()) {
+					return true
+				}
+			}
+			return false
+		}
+		depth++
+		defer func() { depth-- }()
+		switch c.g.kind(t, c.sub) {
+		case kString, kInt, kBool, kError, kUnit, kTime, kRegexp, kDropped:
+			return false
+		}
+		switch u := t.Underlying().(type) {
+		case *types.Basic:
+			return false
+		case *types.Pointer:
+			if in(resolve(u.Elem(), c.sub), parts) {
+				return true
+			}
+			return walk(u.Elem())
+		case *types.Slice:
+			if in(t, pr.slices) || in(u, pr.slices) {
+				return true
+			}
+			return walk(u.Elem())
+		case *types.Array:
+			return walk(u.Elem())
+		case *types.Map:
+			if in(t, pr.maps) || in(u, pr.maps) {
+				return true
+			}
+			return walk(u.Key()) || walk(u.Elem())
+		case *types.Struct:
+			for i := 0; i < u.NumFields(); i++ {
+				if walk(u.Field(i).Type()) {
+					return true
+				}
+			}
+			return false
+		}
+		// interfaces, functions, channels could hold anything. As a result itself: yes. Nested inside a
+		// result (a field of type any deep in a structure): assumed not to refer to the caller's object.
+		if depth <= 1 {
+			return true
+		}
+		assumed = true
+		return false
+	}
+	r := walk(res)
+	if !r && assumed {
+		c.g.note(c.fi.label + ": values of interface / function type nested inside the results of a call that received " + o.Name() + " are assumed not to refer to (parts of) " + o.Name() + ", which is written afterwards")
+	}
+	return r
 }
 
 // ---------- function literals ----------
